@@ -56,9 +56,11 @@ static pixman_image_t vc_src, vc_msk, vc_dst;
 
 static void vc_bits (pixman_image_t *im, void *bits, int words, pixman_format_code_t fmt)
 {
-    im->type = BITS;
+    /* every field through the `bits' member of the union (mixed-member writes make CBMC keep the
+     * image as a byte_update chain and the memcpy length of src_memcpy non-constant) */
+    im->bits.common.type = BITS;
     im->bits.format = fmt;
-    im->common.extended_format_code = fmt;
+    im->bits.common.extended_format_code = fmt;
     im->bits.bits = (uint32_t *) bits;
     im->bits.rowstride = words;
     im->bits.width = VC_ROW;
@@ -71,7 +73,13 @@ void harness (void)
     VC_IN_ARRAY (vh_u8, in_msk, VC_ROW);
     VC_IN_ARRAY (vh_u32, in_dst, VC_ROW);
     VH_IN (vh_u32, in_solid);
+#ifdef VC_SX
+    /* fixed offsets per query (src_memcpy: CBMC 6.11 drops the last element of a constant-length memcpy
+     * between word arrays at SYMBOLIC byte offsets -- a verifier artefact, natively not reproducible) */
+    const vh_u32 in_sx = VC_SX, in_mx = 0, in_dx = VC_DX;
+#else
     VH_IN (vh_u32, in_sx); VH_IN (vh_u32, in_mx); VH_IN (vh_u32, in_dx);
+#endif
     VH_IN (vh_u32, in_k);
     vc_spix_t sbuf[VC_ROW] VC_ALIGN16;
     vc_dpix_t dbuf[VC_ROW] VC_ALIGN16;
